@@ -287,3 +287,6 @@ def parts(tier):
         HypPart('corrupted', dat.dat_corrupted(), check_corrupted, 2400, 32000),
         HypPart('handle-history', handle_histories(), check_handle_history, 600, 6000),
     ]
+
+
+RULE += '  Added after the seeding rounds: part handle-history (can_parse_file / parse_file on one file object); corruptions: over-long UTIM, day, year; blank / NUL-only data line; the process time zone is varied per case (UTC0, JST-9, NST3:30, XXX-12:45).'
